@@ -26,7 +26,7 @@ REF_FILE = [
     (r".*\.spdx\.(rdf|json|xml|ya?ml)$", "SPDX document *.spdx.<format>"),
 ]
 REF_MESON = [r"subprojects$"]
-EXCLUDE = "/\n\r\x00"
+EXCLUDE = "/\x00"
 
 
 def _regex_list(folder: Folder, name: str) -> list[Regex]:
@@ -34,6 +34,21 @@ def _regex_list(folder: Folder, name: str) -> list[Regex]:
     if not isinstance(val, list) or not all(isinstance(x, Regex) for x in val):
         raise AnalysisError(f"{CF}.{name} did not fold to a list of compiled patterns")
     return val
+
+
+def _match_mode(repo: Repo, table: str) -> str:
+    """How is_path_ignored applies the entries of *table*: the method called on the loop variable that ranges over it."""
+    fn = repo.func(f"{CF}.is_path_ignored")
+    modes = set()
+    for loop in ast.walk(fn):
+        if isinstance(loop, ast.For) and isinstance(loop.iter, ast.Name) and loop.iter.id == table and isinstance(loop.target, ast.Name):
+            for c in ast.walk(loop):
+                if isinstance(c, ast.Call) and isinstance(c.func, ast.Attribute) and isinstance(c.func.value, ast.Name) \
+                        and c.func.value.id == loop.target.id and c.func.attr in ("match", "fullmatch", "search"):
+                    modes.add({"match": "match", "fullmatch": "full", "search": "search"}[c.func.attr])
+    if len(modes) != 1:
+        raise AnalysisError(f"is_path_ignored: how {table} is applied could not be read ({sorted(modes)})")
+    return modes.pop()
 
 
 def rule_languages(ck: Check, repo: Repo, folder: Folder, rid: str = "R1") -> dict:
@@ -46,10 +61,14 @@ def rule_languages(ck: Check, repo: Repo, folder: Folder, rid: str = "R1") -> di
     langs = {}
     for name, (ref, floor) in tables.items():
         impl = _regex_list(folder, name)
+        mode = _match_mode(repo, name)
         r.floor(floor, f"entries of {name}", got=len(impl))
-        alpha = Alphabet([(x.pattern, x.flags) for x in impl] + [(p, 0) for p in ref], exclude=EXCLUDE)
-        L_impl = [Lang.from_regex(x.pattern, x.flags, alpha, "match") for x in impl]
-        L_ref = [Lang.from_regex(p, 0, alpha, "match") for p in ref]
+        # the reference is read as a whole-name language: `$` = end of the name, `.` = any character (a name may contain
+        # line breaks); the implementation keeps CPython's semantics (`$` also before one final "\n", `.` without "\n")
+        ref = [p[:-1] + r"\Z" if p.endswith("$") else p for p in ref]
+        alpha = Alphabet([(x.pattern, x.flags) for x in impl] + [(p, re.DOTALL) for p in ref], extra="\n", exclude=EXCLUDE)
+        L_impl = [Lang.from_regex(x.pattern, x.flags, alpha, mode) for x in impl]
+        L_ref = [Lang.from_regex(p, re.DOTALL, alpha, "match") for p in ref]
         U_impl = union(alpha, L_impl, name)
         U_ref = union(alpha, L_ref, "spec")
         langs[name] = (alpha, U_impl)
@@ -72,8 +91,8 @@ def rule_languages(ck: Check, repo: Repo, folder: Folder, rid: str = "R1") -> di
                     {"witness_name": w, "spec_entry": p})
         r.note(f"{name}: alphabet {len(alpha)} minterms, DFA {U_impl.size}/{U_ref.size} states")
     ck.assumptions.append(
-        "names range over all strings without '/', NUL, CR and LF (file names); `$` before a trailing"
-        " newline is therefore out of scope")
+        "names range over all strings without '/' and NUL (file names; line breaks included: `$` also matches before one"
+        " final newline, `.` does not match a newline)")
     return langs
 
 
@@ -119,6 +138,8 @@ class IgnHooks(Hooks):
             "any(pattern.match(path.parent.name) for pattern in _IGNORE_MESON_PARENT_DIR_PATTERNS)":
                 ("and", "has_parent", "meson_parent"),
         }
+        # which matching method is applied to a table is part of its language (R1 reads it); the atom is the same
+        t = re.sub(r"\bpattern\.(fullmatch|search)\(", "pattern.match(", t)
         if t in table:
             return table[t]
         if t == "any(pattern.match('') for pattern in _IGNORE_MESON_PARENT_DIR_PATTERNS)":
@@ -156,6 +177,9 @@ def ref_ignored(v: Valuation) -> tuple:
             return ("return", "True")
         if not v("include_submodules") and v("vcs") and v("submodule"):
             return ("return", "True")
+    else:
+        # neither a regular file nor a directory (FIFO, socket, device node): covered files are REGULAR files
+        return ("return", "True")
     if v("vcs") and v("vcs_ignored"):
         return ("return", "True")
     return ("return", "False")
@@ -811,8 +835,11 @@ def rule_vcs(ck: Check, repo: Repo) -> None:
                         f"the ignored-files query lacks {flag}: {cmd}", repo.loc(fn))
     # the confirmed query: every flag of a VCS query selects or formats WHAT is listed - one that was not confirmed by
     # reading git's documentation changes the set of 'ignored' files (reference = the argv confirmed on the pinned tree)
-    confirmed = {"ls-files", "--exclude-standard", "--ignored", "--others", "--directory", "--no-empty-directory", "-z"}
-    known_bad = {"--cached": "also lists TRACKED files that match an exclude pattern (git add -f, a rule added after the commit): they are"
+    confirmed = {"ls-files", "--exclude-standard", "--ignored", "--others", "--directory", "-z"}
+    known_bad = {"--no-empty-directory": "together with --directory, git (2.39) omits ignored files that lie in an UNTRACKED directory which also"
+                                        " holds a non-ignored file (.gitignore `*.pyc`, untracked u/a.py + u/b.pyc: only without this flag is"
+                                        " u/b.pyc listed) - such files are linted and annotated although `git check-ignore` names them",
+                 "--cached": "also lists TRACKED files that match an exclude pattern (git add -f, a rule added after the commit): they are"
                              " skipped although git check-ignore says they are not ignored",
                  "-c": "also lists TRACKED files that match an exclude pattern", "--modified": "lists modified tracked files as ignored",
                  "-m": "lists modified tracked files as ignored", "--deleted": "lists deleted files", "--stage": "changes the output format",
@@ -890,6 +917,63 @@ def rule_vcs(ck: Check, repo: Repo) -> None:
         if not ok:
             r.violation(q, "membership test", f"is_ignored returns {txt}; expected membership of the"
                         " root-relative path in the listed ignored files", repo.loc(f2))
+    # strategies that know the TRACKED files: ignored = not tracked (Pijul: exact membership; Jujutsu: a path is tracked when
+    # some tracked file lies at or below it)
+    J, P = "reuse.vcs.VCSStrategyJujutsu", "reuse.vcs.VCSStrategyPijul"
+    if repo.has_func(f"{P}.is_ignored"):
+        f2 = repo.func(f"{P}.is_ignored")
+        ck.analysed_fn(f"{P}.is_ignored")
+        rets = [n for n in ast.walk(f2) if isinstance(n, ast.Return)]
+        txt = expr_text(f2, rets[-1].value) if rets else ""
+        r.instance(f"{P}.is_ignored", {"returns": txt})
+        if txt not in ("path not in self._all_tracked_files", "not path in self._all_tracked_files"):
+            r.violation(f"{P}.is_ignored", "membership test", f"is_ignored returns {txt}; expected: the root-relative path is not among the tracked files",
+                        repo.loc(f2))
+    if repo.has_func(f"{J}.is_ignored"):
+        f2 = repo.func(f"{J}.is_ignored")
+        ck.analysed_fn(f"{J}.is_ignored")
+        loops = [n for n in f2.body if isinstance(n, ast.For) and "_all_tracked_files" in ast.unparse(n.iter)]
+        verdicts = []
+        for lp in loops:
+            for n in ast.walk(lp):
+                if isinstance(n, ast.If):
+                    t = n.test
+                    inner_ret = [x for x in n.body if isinstance(x, ast.Return) and isinstance(x.value, ast.Constant)]
+                    if isinstance(t, ast.Compare) and len(t.ops) == 1 and inner_ret:
+                        sides = sorted([ast.unparse(t.left), ast.unparse(t.comparators[0])])
+                        prefix_cmp = sides == sorted([f"{lp.target.id}.parts[:len(path.parts)]", "path.parts"]) if isinstance(lp.target, ast.Name) else False
+                        verdicts.append((type(t.ops[0]).__name__, prefix_cmp, inner_ret[0].value.value))
+        tail = [x for x in f2.body if isinstance(x, ast.Return)]
+        default = tail[-1].value.value if tail and isinstance(tail[-1].value, ast.Constant) else None
+        r.instance(f"{J}.is_ignored", {"prefix_tests": verdicts, "default": default})
+        if verdicts != [("Eq", True, False)] or default is not True:
+            r.violation(f"{J}.is_ignored", "tracked-prefix test",
+                        f"found {verdicts}, default {default}; expected: False as soon as a tracked file has the path as a prefix of its parts, True"
+                        " otherwise - anything else reports tracked files as ignored (they are skipped) or ignored files as covered", repo.loc(f2))
+    # every VCS query runs IN the project root: the listings are root-relative, and what git / hg / jj / pijul print depends on
+    # the directory they are started in
+    ec = repo.func("reuse._util.execute_command")
+    ck.analysed_fn("reuse._util.execute_command")
+    runs = [c for c in ast.walk(ec) if isinstance(c, ast.Call) and ast.unparse(c.func) in ("subprocess.run", "subprocess.Popen", "subprocess.check_output")]
+    cwd_fwd = [ast.unparse(k.value) for c in runs for k in c.keywords if k.arg == "cwd"]
+    r.instance("execute_command-cwd", {"cwd_arguments": cwd_fwd}, "reuse._util.execute_command")
+    if runs and not any(re.fullmatch(r"(str\()?cwd\)?|os\.fspath\(cwd\)", t) for t in cwd_fwd):
+        r.violation("reuse._util.execute_command", "the working directory is not handed to the child process",
+                    f"cwd arguments: {cwd_fwd}: the VCS is asked about the directory `reuse` was started in, not about the project root - with"
+                    " `--root ../proj` (or from a subdirectory) the ignored-files listing belongs to another tree", repo.loc(ec))
+    n_q = 0
+    for sq, sf in sorted(repo.functions.items()):
+        if not sq.startswith("reuse.vcs.") or sf.name.startswith("in_repo") or sf.name == "find_root":
+            continue
+        for c in ast.walk(sf):
+            if isinstance(c, ast.Call) and ast.unparse(c.func) == "execute_command":
+                n_q += 1
+                cw = next((ast.unparse(k.value) for k in c.keywords if k.arg == "cwd"), ast.unparse(c.args[2]) if len(c.args) > 2 else None)
+                r.instance(f"query-cwd:{sq}", {"function": sq, "cwd": cw}, sq)
+                if cw != "self.root":
+                    r.violation(sq, "a VCS listing is not taken in the project root", f"cwd={cw}; the listing is compared with root-relative paths",
+                                repo.loc(c))
+    r.floor(4, "VCS listing queries", got=n_q)
 
 
 def run(ck: Check, repo: Repo) -> None:
